@@ -19,3 +19,6 @@ open XotModel.Props
 #print axioms C16_events_children
 #print axioms C16_events_tagged
 #print axioms C16_events_order
+#print axioms C16_normalizer_tokens
+#print axioms C16_normalizer_write
+#print axioms C16_normalizer_events
